@@ -4,7 +4,7 @@
 patch=$1; shift
 cd /repo || exit 2
 if ! git diff --quiet; then echo "repo dirty"; exit 2; fi
-git apply "$patch" || { echo "patch does not apply"; exit 2; }
+git apply "$patch" 2>/dev/null || patch -p1 -s -F3 --no-backup-if-mismatch < "$patch" || { echo "patch does not apply"; git checkout -- .; exit 2; }
 go build ./... || { echo "mutant does not build"; git checkout -- .; exit 2; }
 for id in "$@"; do
   out=$(cd /verif && VERIF_NO_EVIDENCE=1 bin/check "$id" ${TIER:-quick} 2>&1); rc=$?
